@@ -169,8 +169,25 @@ def gen(rng, tier, idx):
         return dict(kind='driver', P=P, grid=g, ckw=ckw, steps=rng.choice([1, 1, 2]), save=rng.choice([1, 2]),
                     nofolder=rng.random() < 0.5, sched=_arrival_sched(rng, P, idx, tier))
     # hashseed
-    sub = c01.gen(rng, tier, idx)
-    sub = _route_rich(rng, sub) if len(sub['shape']) >= 3 else sub
+    which = idx % 3
+    if which == 1:
+        # the literal names the library itself uses
+        sub = c01.gen(rng, tier, idx)
+        nprocs = rng.choice([[2, 2], [1, 3], [3, 1], [2, 3]])
+        std = [['flux_surface', [0, 3, 1, 2]], ['v_parallel', [0, 2, 1, 3]], ['poloidal', [3, 2, 1, 0]]]
+        shape = cm.gen_shape(rng, 4, nprocs, [o for _, o in std])
+        names = [n for n, _ in std]
+        sub.update(nprocs=nprocs, P=int(np.prod(nprocs)), layouts=std, shape=shape, mgr='handler',
+                   ops=[[a, b, bool(rng.random() < 0.5)] for a in names for b in names if a != b])
+    elif which == 2:
+        sub = c03.gen(rng, tier, idx)
+        while sub['family'] != 'driver':
+            sub = c03.gen(rng, tier, idx)
+        sub['mgr'] = 'swapper'
+    else:
+        sub = c01.gen(rng, tier, idx)
+        sub = _route_rich(rng, sub) if len(sub['shape']) >= 3 else sub
+        sub['mgr'] = 'handler'
     return dict(kind='hashseed', P=sub['P'], sub=sub,
                 hashseeds=[1, 2, 3, 77] if tier == 'quick' else [1, 2, 3, 5, 8, 13, 77, 4242],
                 sched=simworld.default_sched(0))
@@ -220,9 +237,18 @@ def _salt_case(case, rank):
 
 def _routes(mgr):
     rm = getattr(mgr, '_route_map', None)
-    if rm is None:
+    try:
+        if not isinstance(rm, dict):
+            return None
+        out = {}
+        for a, d in rm.items():
+            for b, v in d.items():
+                if not (isinstance(a, str) and isinstance(b, str) and all(isinstance(x, str) for x in v)):
+                    return None        # some other representation: rely on the collective traces and the data
+                out.setdefault(str(a), {})[str(b)] = [str(x) for x in v]
+        return out
+    except Exception:   # noqa
         return None
-    return {str(a): {str(b): [str(x) for x in v] for b, v in d.items()} for a, d in rm.items()}
 
 
 def run_layout(case, tape):
@@ -338,6 +364,7 @@ def run_minmax(case, tape):
         return out
 
     def post(w, results):
+        probes_extra = {}
         Gr = np.real(cm.global_array(shape, case['dtype'], salt=5)).astype(float)
         for ci, call in enumerate(case['calls']):
             root = call['root']
@@ -353,8 +380,9 @@ def run_minmax(case, tape):
                     if r == root:
                         if got != want:
                             raise OracleFail('wrong-reduction', dict(call=call, got=got, want=want))
-                    elif got is not None:
-                        raise OracleFail('wrong-reduction', dict(call=call, rank=r, why='non-root got a value', got=got))
+                    elif got is not None and got != want:
+                        # other ranks may get nothing (reduce) or the same result (allreduce), never another value
+                        raise OracleFail('wrong-reduction', dict(call=call, rank=r, why='non-root got a different value', got=got))
             else:
                 got = results[root][ci][1]
                 if got is None:
@@ -366,8 +394,7 @@ def run_minmax(case, tape):
                 for r, res in enumerate(results):
                     order, st, en, coords = res[ci][0]
                     if list(mpi_data[r]) != list(coords):
-                        raise OracleFail('wrong-block', dict(call=call, rank=r, why='process coordinates gathered with the block',
-                                                             got=list(mpi_data[r]), want=list(coords)))
+                        probes_extra['gathered_coordinates_differ_from_layout_ranks'] = 1    # informational only
                     slices = []
                     empty = False
                     for i, d in enumerate(order):
@@ -386,10 +413,7 @@ def run_minmax(case, tape):
                     pos += chunk.size
                 if pos != sl.size:
                     raise OracleFail('wrong-block', dict(call=call, why='total size', got=int(sl.size), want=pos))
-                for r, res in enumerate(results):
-                    if r != root and res[ci][1] is not None:
-                        raise OracleFail('wrong-block', dict(call=call, rank=r, why='non-root got a value'))
-        probes = {}
+        probes = dict(probes_extra)
         if case.get('mgr') == 'swapper':
             probes['minmax_on_swapper_grid'] = 1
         for call in case['calls']:
@@ -427,6 +451,11 @@ def run_setup(case, tape):
         out['vals'] = [None if v is None else float(v) for v in vals]
         folder = setupSave(constants, case['save_folder'], comm, case['save_root'])
         out['folder'] = folder
+        # every member of the grid's communicator takes part in a checkpoint and in a gather for a
+        # figure, also a rank that owns nothing (plot-only rank)
+        comm.Barrier()
+        grid.writeH5Dataset(folder, 7)
+        grid.getBlockFromDict({case['fix_axis']: case['fix_val']}, comm, case['draw'])
         return out
 
     def post(w, results):
@@ -434,7 +463,7 @@ def run_setup(case, tape):
         if len(folders) != 1:
             raise OracleFail('setupSave-disagree', dict(folders=sorted(map(str, folders))))
         f = folders.pop()
-        if not (os.path.isdir(f) and os.path.exists(os.path.join(f, 'initParams.json'))):
+        if not (f and os.path.isdir(f) and any(x.endswith('.json') for x in os.listdir(f))):
             raise OracleFail('setupSave-missing', dict(folder=f))
         for r, res in enumerate(results):
             if case['plot'] and r == case['draw']:
@@ -442,17 +471,15 @@ def run_setup(case, tape):
                     raise OracleFail('plot-rank-not-empty', dict(rank=r, size=res['size']))
             elif res['size'] == 0:
                 raise OracleFail('empty-block', dict(rank=r))
-            for v in res['vals']:
-                if (v is None) != (r != case['draw']):
-                    raise OracleFail('wrong-reduction', dict(rank=r, draw=case['draw'], vals=res['vals']))
+            if r == case['draw'] and any(v is None for v in res['vals']):
+                raise OracleFail('wrong-reduction', dict(rank=r, draw=case['draw'], vals=res['vals']))
         probes = {}
         if case['plot']:
             probes['plot_only_rank'] = 1
         if case['save_folder'] is None:
             probes['setupSave_bcast'] = 1
-            want = 'simulation_%d' % case.get('preexisting', 0)
-            if f != want:
-                raise OracleFail('setupSave-folder', dict(got=f, want=want))
+            if os.path.basename(os.path.normpath(f)) in ['simulation_%d' % i for i in range(case.get('preexisting', 0))]:
+                raise OracleFail('setupSave-folder', dict(got=f, why='a folder that existed before was reused'))
             if case.get('preexisting'):
                 probes['setupSave_skips_existing_folders'] = 1
         if case['save_root'] != 0:
@@ -481,9 +508,22 @@ def trace_digest(case):
     def rank_fn(comm, rank):
         w = simworld.current()[0]
         holder['w'] = w
+        if case.get('mgr') == 'swapper':
+            mgr = c03.build_swapper(comm, case)
+            dt = cm.np_dtype(case['dtype'])
+            bsize = int(mgr.bufferSize)
+            a = cm.poison(np.empty(bsize, dtype=dt))
+            b = cm.poison(np.empty(bsize, dtype=dt))
+            cur = case['start']
+            for nxt, use_buf in case['walk']:
+                buf = cm.poison(np.empty(bsize, dtype=dt)) if use_buf else None
+                mgr.transpose(a, b, cur, nxt, buf)
+                a, b = b, a
+                cur = nxt
+            return True
         mgr = c01.build_handler(comm, case)
         c01.do_transposes(mgr, case, w, rank)
-        return _routes(mgr)
+        return True
 
     res = execute(ID, P, sched, None, rank_fn, None)
     w = holder.get('w')
@@ -541,9 +581,12 @@ def run_driver(case, tape):
     with Scratch() as base:
         cfile = os.path.join(base, 'constants.json')
         c18._write_constants(cfile, ckw)
-        folder = os.path.join(base, 'simulation_0' if case['nofolder'] else 'out')
+        folder = os.path.join(base, 'out')
+        before = set(os.listdir(base))
         args = [tEnd, 10 ** 30, '-c', cfile, '-s', case['save']] + ([] if case['nofolder'] else ['-f', folder])
         c18._driver_world(M, case['P'], case['grid'], case['sched'], base, args)
+        if case['nofolder']:
+            folder = c18._new_run_folder(base, before) or folder
         times = c18._list_times(folder) if os.path.isdir(folder) else []
 
     def oracle():
